@@ -164,6 +164,13 @@ type BuiltIndex struct {
 	Key     []refcmp.KeyCol
 }
 
+func collOrBinary(c string) string {
+	if c == "" {
+		return refcmp.Binary
+	}
+	return c
+}
+
 // KeyCols gives the comparison attributes of the first n key columns.
 func keyCols(coll []string, desc []bool, n int) []refcmp.KeyCol {
 	out := make([]refcmp.KeyCol, n)
@@ -228,6 +235,47 @@ func Build(spec *Image) (res *Built, err error) {
 			}
 			bt.IShape = b.BuildIndex(recs, t.Tree)
 			objs = append(objs, fmtb.Object{Type: "table", Name: t.Name, TblName: t.Name, Root: bt.IShape.Root, SQL: t.SQL()})
+			// secondary indexes: the indexed columns, then the primary key
+			// columns the index does not hold already (same column under the
+			// same collation), with the key's collation and direction
+			for ii := range t.Indexes {
+				ix := &t.Indexes[ii]
+				bi := &BuiltIndex{Spec: ix, Key: keyCols(ix.Coll, ix.Desc, len(ix.Cols))}
+				var extra []int
+				for k := 0; k < t.PKCols; k++ {
+					dup := false
+					for i, c := range ix.Cols {
+						if c == k && strings.EqualFold(collOrBinary(at(ix.Coll, i)), collOrBinary(at(t.PKColl, k))) {
+							dup = true
+						}
+					}
+					if !dup {
+						extra = append(extra, k)
+						bi.Key = append(bi.Key, refcmp.KeyCol{Collate: at(t.PKColl, k), Desc: atb(t.PKDesc, k)})
+					}
+				}
+				for ri, r := range t.Rows {
+					all := pad(r.Values(), t.NCols)
+					var vs []val.V
+					for _, c := range ix.Cols {
+						vs = append(vs, all[c])
+					}
+					for _, k := range extra {
+						vs = append(vs, all[k])
+					}
+					bi.Entries = append(bi.Entries, Entry{Values: vs, Row: ri})
+				}
+				sort.SliceStable(bi.Entries, func(i, j int) bool {
+					return CmpEntries(bi.Entries[i].Values, bi.Entries[j].Values, bi.Key) < 0
+				})
+				var irecs [][]byte
+				for _, e := range bi.Entries {
+					irecs = append(irecs, fmtb.EncodeRecord(fmtb.Values(e.Values...), 0))
+				}
+				bi.Shape = b.BuildIndex(irecs, ix.Tree)
+				bt.Indexes[ix.Name] = bi
+				objs = append(objs, fmtb.Object{Type: "index", Name: ix.Name, TblName: t.Name, Root: bi.Shape.Root, SQL: ix.SQL(t.Name)})
+			}
 		} else {
 			bt.Rows = append([]Row{}, t.Rows...)
 			sort.SliceStable(bt.Rows, func(i, j int) bool { return bt.Rows[i].Rowid < bt.Rows[j].Rowid })
